@@ -74,6 +74,11 @@ def gen_cases(tier, seed):
     r = C.case_rng(seed, PID, i)
     spec = scengen.gen(r, profile=profs[i % len(profs)], idx=i)
     out.append({'kind': spec['stack'] + '/' + profs[i % len(profs)], 'spec': spec})
+  from harness.props import c02
+  for i in range(n // 8):
+    r = C.case_rng(seed, PID + 'late', i)
+    spec = c02.late_reply(r, i)
+    out.append({'kind': spec['stack'] + '/late-reply', 'spec': spec})
   return out
 
 
@@ -95,7 +100,8 @@ def run_impl(case):
   for cid, c in tr['calls'].items():
     calls[cid] = {k: c.get(k) for k in ('issued', 'timeout', 'done', 'opened', 'final', 'final_ready', 'issue_error')}
   evs = [e for e in tr['events']]
-  return {'calls': calls, 'events': evs, 'crashes': tr['crashes'], 'now': tr['now'], 'closed_at': tr.get('closed_at'),
+  args = {e['id']: e['id'] + '|' + e.get('pad', '') for e in case['spec']['events'] if e['op'] == 'call'}
+  return {'calls': calls, 'events': evs, 'args': args, 'crashes': tr['crashes'], 'now': tr['now'], 'closed_at': tr.get('closed_at'),
           't_base': tr['t_base'], 'open_failed': tr.get('open_failed', False)}
 
 
@@ -108,9 +114,12 @@ def monitor(case, obs):
   spec = case['spec']
   r = spec.get('resolution', 1)
   completes = {}
+  entered = {}
   for e in obs['events']:
     if e[1] == 'complete':
       completes[e[2]] = completes.get(e[2], 0) + 1
+    if e[1] == 'tsink' and e[2] not in entered:
+      entered[e[2]] = e[0]
   for cid, c in obs['calls'].items():
     if c.get('issue_error'):
       continue
@@ -131,10 +140,19 @@ def monitor(case, obs):
     if late:
       what = 'call %s issued at tick %s with timeout %s (rounded deadline %s) %s' % (
           cid, c['issued'], c['timeout'], limit, ('completed at %s' % done[0]['at']) if done else 'had not completed at %s' % obs['now'])
-      if c.get('opened') is False:
+      # known finding F2: the call is chained behind the client's open with no timer, so it is late exactly when the
+      # open completed after the rounded deadline (the call then completes in that very tick) or has not completed at all
+      t_in = entered.get(cid)
+      f2 = c.get('opened') is False and ((t_in is None and not done) or
+                                         (t_in is not None and t_in > limit and done and done[0]['at'] == t_in))
+      if f2:
         v.append(('late-completion/issued-before-open', what + ' [issued before the client finished opening]'))
       else:
         v.append(('late-completion', what))
+    for d in done:
+      arg = obs.get('args', {}).get(cid)
+      if d['kind'] == 'value' and arg is not None and d['value'] != 'R:' + arg:
+        v.append(('wrong-reply', 'call %s with argument %r completed with %r, which is not the reply to that call' % (cid, arg, d['value'])))
   for cr in obs['crashes']:
     v.append(('greenlet-crash', '%s: %s at %s' % (cr['type'], cr['value'], cr['where'][-160:])))
   return v
